@@ -808,6 +808,54 @@ fn ref_setrepl(tokens: &[Option<String>]) -> Option<Option<ReplValue>> {
     Some(Some((epoch, force, masters, replicas)))
 }
 
+/// the rejection clause for one SETREPL token list: real parser against the documented grammar
+fn check_repl_tokens(what: &str, m: &[Vec<u8>], obs: &mut Obs) -> Result<(), Fail> {
+    let real = ReplicatorMeta::from_resp(&to_resp(&["UMCTL", "SETREPL"], m));
+    let reference = ref_setrepl(&as_tokens(m));
+    let shown = m.iter().map(|t| String::from_utf8_lossy(t).to_string()).collect::<Vec<_>>().join(" ");
+    match (real, reference) {
+        (_, None) => obs.class_n("repl-mutant:unspecified"),
+        (Err(_), _) => obs.class_n("repl-mutant:rejected"),
+        (Ok(r), Some(Some(w))) => {
+            obs.class_n("repl-mutant:another-valid-encoding(agree)");
+            ensure!(repl_value(&r) == w, "C17:decodes-differently-from-documentation", "{}: SETREPL [{}] decodes to {:?}, documented grammar gives {:?}", what, shown, repl_value(&r), w);
+        }
+        (Ok(r), Some(None)) => {
+            if m.iter().any(|t| std::str::from_utf8(t).is_err()) {
+                tolerate_known(
+                    obs,
+                    Fail::new("C17:non-utf8-token-dropped", format!("{}: SETREPL [{}] contains a token that is not UTF-8; it is silently dropped and the rest decodes to {:?}", what, shown, repl_value(&r))),
+                )?;
+            } else {
+                fail!("C17:accepts-corrupted-encoding", "{}: SETREPL [{}] is not well-formed but decodes to {:?}", what, shown, repl_value(&r));
+            }
+        }
+    }
+    Ok(())
+}
+
+/// an arbitrary token list (the libFuzzer target's case type; also replayable)
+#[derive(Debug, Clone, Serialize, Deserialize)]
+pub struct TokCase {
+    pub repl: bool,
+    pub tokens: Vec<Vec<u8>>,
+}
+
+pub fn check_tokens(c: &TokCase, obs: &mut Obs) -> Result<(), Fail> {
+    if c.repl {
+        check_repl_tokens("token list", &c.tokens, obs)?;
+        if ReplicatorMeta::from_resp(&to_resp(&["UMCTL", "SETREPL"], &c.tokens)).is_ok() && c.tokens.len() > 2 {
+            obs.nontrivial = true;
+        }
+    } else {
+        check_against_reference("token list", &c.tokens, obs)?;
+        if ProxyClusterMeta::from_resp(&to_resp(&["UMCTL", "SETCLUSTER"], &c.tokens)).is_ok() && c.tokens.len() > 4 {
+            obs.nontrivial = true;
+        }
+    }
+    Ok(())
+}
+
 pub fn check_repl(g: &GRepl, obs: &mut Obs) -> Result<(), Fail> {
     let mut masters = vec![];
     let mut replicas = vec![];
@@ -856,27 +904,7 @@ pub fn check_repl(g: &GRepl, obs: &mut Obs) -> Result<(), Fail> {
         }
     }
     for (what, m) in mutants {
-        let real = ReplicatorMeta::from_resp(&to_resp(&["UMCTL", "SETREPL"], &m));
-        let reference = ref_setrepl(&as_tokens(&m));
-        let shown = m.iter().map(|t| String::from_utf8_lossy(t).to_string()).collect::<Vec<_>>().join(" ");
-        match (real, reference) {
-            (_, None) => obs.class_n("repl-mutant:unspecified"),
-            (Err(_), _) => obs.class_n("repl-mutant:rejected"),
-            (Ok(r), Some(Some(w))) => {
-                obs.class_n("repl-mutant:another-valid-encoding(agree)");
-                ensure!(repl_value(&r) == w, "C17:decodes-differently-from-documentation", "{}: SETREPL [{}] decodes to {:?}, documented grammar gives {:?}", what, shown, repl_value(&r), w);
-            }
-            (Ok(r), Some(None)) => {
-                if m.iter().any(|t| std::str::from_utf8(t).is_err()) {
-                    tolerate_known(
-                        obs,
-                        Fail::new("C17:non-utf8-token-dropped", format!("{}: SETREPL [{}] contains a token that is not UTF-8; it is silently dropped and the rest decodes to {:?}", what, shown, repl_value(&r))),
-                    )?;
-                } else {
-                    fail!("C17:accepts-corrupted-encoding", "{}: SETREPL [{}] is not well-formed but decodes to {:?}", what, shown, repl_value(&r));
-                }
-            }
-        }
+        check_repl_tokens(what, &m, obs)?;
     }
     Ok(())
 }
@@ -1171,8 +1199,67 @@ pub fn check_broker(case: &BCase, obs: &mut Obs) -> Result<(), Fail> {
 
 pub const RULE: &str = "[messages] arbitrary cluster-metadata messages (0..6 local nodes, 0..6 peers, 0..4 slot ranges each with 1..5 canonical sub-ranges, all tag kinds, every config field incl. extremes, empty cluster name, FORCE): plain and compressed round trip through the real RESP parser, plain==compressed, encoder vs an independent reference decoder written from docs/meta_command.md; rejection clause: EVERY proper token prefix, EVERY single-token deletion and 11 corruptions of EVERY token, plus truncations/flips of the compressed blob, real parser vs reference decoder; [repl] same for SETREPL; [tasks] migration task descriptors and switch arguments incl. the space-joined INFOMGR form; [broker] metadata of reachable broker states sent through the real coordinator sender (hook H1, capturing client) and parsed by the real proxy parser, compared with the served JSON view; every pending migration reported as finished is parsed by the real coordinator checker and committed on the issuing broker (accepted once, for src and dst reports). non-trivial = message has a migration tag / >=2 ranges on a node / non-default config (messages), >=3 records or >=2 peers (repl), tagged task (tasks), state with a migration (broker); distinct = hash of the case";
 
+const DICT: &[&str] = &[
+    "v2", "0", "1", "2", "7", "233", "18446744073709551615", "NOFLAG", "FORCE", "COMPRESS", "FORCE,COMPRESS", "mycluster", "c", "127.0.0.1:7001", "127.0.0.1:7002",
+    "10.0.0.1:6000", "10.0.0.2:6000", "PEER", "CONFIG", "0-100", "101-16383", "0-16383", "5-5", "MIGRATING", "IMPORTING", "master", "replica", "MASTER", "REPLICA",
+    "compression_strategy", "allow_all", "disabled", "set_get_only", "migration_max_blocking_time", "migration_scan_count", "16", "xyz", "", "-1", "+1", "16384", "100-0",
+];
+
+pub fn tokens_strategy() -> impl Strategy<Value = TokCase> {
+    let tok = prop_oneof![12 => (0usize..DICT.len()).prop_map(|i| DICT[i].as_bytes().to_vec()), 1 => prop::collection::vec(any::<u8>(), 0..6), 1 => "[0-9]{1,5}-[0-9]{1,5}".prop_map(|s| s.into_bytes())];
+    // grammar-shaped skeletons so that a useful fraction is accepted by the parsers
+    let range = prop_oneof![
+        3 => (0u32..16384, 0u32..16384).prop_map(|(a, b)| vec!["1".to_string(), format!("{}-{}", a.min(b), a.max(b))]),
+        1 => (0u32..16384, 0u32..16384, any::<bool>(), 0u64..50).prop_map(|(a, b, mig, e)| vec![
+            if mig { "MIGRATING" } else { "IMPORTING" }.to_string(), "1".to_string(), format!("{}-{}", a.min(b), a.max(b)), e.to_string(),
+            "10.0.0.1:6000".into(), "127.0.0.1:7001".into(), "10.0.0.2:6000".into(), "127.0.0.2:7001".into()
+        ]),
+    ];
+    let node = (prop_oneof![Just("127.0.0.1:7001"), Just("127.0.0.1:7002"), Just("127.0.0.2:7001")], range).prop_map(|(a, r)| {
+        let mut v = vec![a.to_string()];
+        v.extend(r);
+        v
+    });
+    let skeleton = (0u64..5, prop_oneof![Just("NOFLAG"), Just("FORCE")], prop::collection::vec(node.clone(), 0..3), prop::option::of(prop::collection::vec(node, 0..3)), prop::option::of(prop::collection::vec((0usize..DICT.len(), 0usize..DICT.len()), 0..3)))
+        .prop_map(|(e, f, local, peer, cfg)| {
+            let mut t: Vec<String> = vec!["v2".into(), e.to_string(), f.into(), "mycluster".into()];
+            t.extend(local.into_iter().flatten());
+            if let Some(p) = peer {
+                t.push("PEER".into());
+                t.extend(p.into_iter().flatten());
+            }
+            if let Some(c) = cfg {
+                t.push("CONFIG".into());
+                for (k, v) in c {
+                    t.push(DICT[k].into());
+                    t.push(DICT[v].into());
+                }
+            }
+            t.into_iter().map(|s| s.into_bytes()).collect::<Vec<_>>()
+        });
+    let edits = prop::collection::vec((any::<u16>(), 0u8..3, tok.clone()), 0..3);
+    let shaped = (skeleton, edits).prop_map(|(mut t, edits)| {
+        for (pos, kind, tok) in edits {
+            let i = pick(pos, t.len() + 1);
+            match kind {
+                0 if i < t.len() => {
+                    t.remove(i);
+                }
+                1 if i < t.len() => t[i] = tok,
+                _ => t.insert(i.min(t.len()), tok),
+            }
+        }
+        t
+    });
+    (any::<bool>(), prop_oneof![2 => prop::collection::vec(tok, 0..24), 3 => shaped]).prop_map(|(repl, tokens)| TokCase { repl, tokens })
+}
+
+pub const RULE_TOKENS: &str = "arbitrary token lists for UMCTL SETCLUSTER / SETREPL: (a) random sequences over a dictionary of protocol keywords, numbers (incl. 2^64-1, -1, +1, 16384), addresses, slot ranges (incl. reversed), config fields/values and short random byte strings, (b) grammar-shaped message skeletons with 0..2 random token deletions/substitutions/insertions; oracle: the real parser against the reference decoder written from docs/meta_command.md - accepted lists decode to the documented value, lists the grammar rejects are rejected; non-trivial = the real parser accepts the list (> 4 tokens for SETCLUSTER, > 2 for SETREPL); distinct = hash of the case";
+pub const RULE_FUZZ: &str = "libFuzzer (coverage-guided, ASan, fixed -seed and -runs per worker process, fresh corpus seeded with golden messages and the protocol dictionary): space-separated token lists up to 512 bytes (first byte selects SETCLUSTER/SETREPL); in-target oracle = the token-list oracle of the proptest sub-check; every crash artifact is re-decided by the oracle in the parent before it is reported";
+
 pub fn run(ctx: &Ctx, findings: &Findings) -> PropReport {
     let mut subs = vec![];
+    let mut fuzz_note: Option<String> = None;
     if let Some(path) = &ctx.replay {
         let v: serde_json::Value = serde_json::from_str(&std::fs::read_to_string(path).expect("replay file")).expect("json");
         if let Some(r) = replay_case::<GMsg>(ctx, findings, "messages", &v, &check_msg) {
@@ -1187,13 +1274,35 @@ pub fn run(ctx: &Ctx, findings: &Findings) -> PropReport {
         if let Some(r) = replay_case::<BCase>(ctx, findings, "broker", &v, &check_broker) {
             subs.push(r);
         }
+        if let Some(r) = replay_case::<TokCase>(ctx, findings, "tokens", &v, &check_tokens) {
+            subs.push(r);
+        }
     } else {
         CASE_THREADS.store(false, std::sync::atomic::Ordering::Relaxed);
         subs.push(drive(ctx, findings, "messages", RULE, ctx.cases(3000, 60000), msg_strategy, &check_msg));
         subs.push(drive(ctx, findings, "repl", RULE, ctx.cases(6000, 120000), repl_strategy, &check_repl));
         subs.push(drive(ctx, findings, "tasks", RULE, ctx.cases(20000, 400000), task_strategy, &check_task));
+        subs.push(drive(ctx, findings, "tokens", RULE_TOKENS, ctx.cases(200000, 4000000), tokens_strategy, &check_tokens));
         CASE_THREADS.store(true, std::sync::atomic::Ordering::Relaxed);
         subs.push(drive(ctx, findings, "broker", RULE, ctx.cases(3000, 60000), broker_strategy, &check_broker));
+        if ctx.tier == Tier::Thorough {
+            let to_case = |bytes: &[u8]| TokCase { repl: bytes.first().map(|b| b & 1 == 1).unwrap_or(false), tokens: crate::fuzzing::tokens_from_bytes(bytes.get(1..).unwrap_or(&[])) };
+            let spec = crate::fuzzing::FuzzSpec {
+                target: "c17_tokens",
+                sub: "tokens",
+                rule: RULE_FUZZ,
+                runs: ((2_000_000.0 * ctx.scale) as u64).max(1000),
+                max_len: 512,
+                timeout_s: 30,
+                malloc_limit_mb: 1024,
+                confirm: &|bytes: &[u8], obs: &mut Obs| check_tokens(&to_case(bytes), obs),
+                case_of: &|bytes: &[u8]| serde_json::to_value(to_case(bytes)).unwrap(),
+            };
+            match crate::fuzzing::run_fuzz(ctx, findings, &spec) {
+                Some(r) => subs.push(r),
+                None => fuzz_note = Some(crate::fuzzing::fuzz_missing_note("c17_tokens")),
+            }
+        }
     }
     PropReport {
         level: "exploration",
@@ -1202,7 +1311,10 @@ pub fn run(ctx: &Ctx, findings: &Findings) -> PropReport {
             "a node without any slot range has no representation in the plain encoding (one entry per range); values are compared modulo such empty entries".into(),
             "mutants that are themselves a well-formed encoding of another value (e.g. deleting the PEER keyword) are accepted when real parser and reference decoder agree on that value".into(),
             "tokens are sound by construction (host:port addresses, no spaces, not a protocol keyword)".into(),
-        ],
+        ]
+        .into_iter()
+        .chain(fuzz_note)
+        .collect(),
         extra: Default::default(),
     }
 }
